@@ -263,7 +263,7 @@ func (s *Sys) Boot() error {
 			return string(pk)
 		}, propctl.NewWatcherForVerif(inc.props), propctl.NewConfigurationWatcherForVerif(inc.cfgs))
 		mk("transaction", txctl.NewReconcilerForVerif(inc.txs, inc.props), nil,
-			txctl.NewWatcherForVerif(inc.txs), txctl.NewProposalWatcherForVerif(inc.props))
+			txctl.NewWatcherForVerif(inc.txs, inc.props), txctl.NewProposalWatcherForVerif(inc.props))
 		mk("mastership", msctl.NewReconcilerForVerif(inc.topo, inc.cfgs), nil,
 			msctl.NewTopoWatcherForVerif(inc.topo), msctl.NewConfigurationStoreWatcherForVerif(inc.cfgs))
 		inc.server = nb.NewServerForVerif(inc.topo, inc.txs, inc.props, inc.cfgs, inc.reg, inc.conns, 0)
